@@ -3,7 +3,8 @@
    showing the hypotheses are met by non-trivial values.  Model: Model/BibtexStr.v
    (pybtex/bibtex/utils.py); notions the property refers to: Spec/BibtexStrSpec.v. *)
 From Pybtex Require Import Base.Prelude Base.PyChar Base.PyStr Model.BibtexStr Spec.BibtexStrSpec
-  Proofs.BibtexStr Proofs.BibtexStrCase Proofs.BibtexStrSplit Proofs.BibtexStrAlg.
+  Proofs.BibtexStr Proofs.BibtexStrCase Proofs.BibtexStrSplit Proofs.BibtexStrAlg Proofs.BibtexStrNames
+  Model.Bst Proofs.BibtexStrBst.
 
 (* ---- scanning into (token, brace level) pairs ---- *)
 
@@ -178,10 +179,22 @@ Theorem change_case_length : forall s mode out, ends_in_special s = false -> cha
 Proof. exact change_case_length_gen. Qed.
 Print Assumptions change_case_length.
 
+(* the exact length for EVERY string: the one closing brace the scanner adds *)
+Theorem change_case_length_all : forall s mode out, change_case s mode = Ok out ->
+  length out = length s + (if ends_in_special s then 1 else 0).
+Proof. exact change_case_length_all_lemma. Qed.
+Print Assumptions change_case_length_all.
+
 Theorem change_case_idem : forall s mode out, ends_in_special s = false -> change_case s mode = Ok out ->
   change_case out mode = Ok out.
 Proof. exact change_case_idem_gen. Qed.
 Print Assumptions change_case_idem.
+
+(* the hypothesis of change_case_idem cannot be dropped: FULL STATEMENT (every string) refuted *)
+Theorem change_case_idem_refuted :
+  exists s mode out, ends_in_special s = true /\ change_case s mode = Ok out /\ change_case out mode <> Ok out.
+Proof. exact change_case_idem_refuted_lemma. Qed.
+Print Assumptions change_case_idem_refuted.
 
 (* the result is the concatenation of per-token images; a token inside braces (level > 0)
    that is not a special character is unchanged; of a special character (level 1, starts
@@ -308,12 +321,129 @@ Theorem first_letter_spec : forall s ts, balanced s -> scan s = Ok ts ->
 Proof. exact first_letter_spec_lemma. Qed.
 Print Assumptions first_letter_spec.
 
+(* ... and on EVERY string (stray closing braces are skipped, an unclosed special character counts) *)
+Theorem first_letter_spec_all : forall s ts, scan s = Ok ts ->
+  bibtex_first_letter s = Ok (first_letter_of (map fst (filter (fun t => negb (tok_is_brace (fst t))) ts))).
+Proof. exact first_letter_spec_all_lemma. Qed.
+Print Assumptions first_letter_spec_all.
+
 (* the result is empty, one letter, or a whole special character in its braces *)
 Theorem first_letter_shape : forall s r, bibtex_first_letter s = Ok r ->
   r = [] \/ (exists c, r = [c] /\ is_alpha c = true) \/
   (exists t, r = c_lbrace :: t ++ [c_rbrace] /\ bs_head t = true /\ 2 <= length t).
 Proof. exact first_letter_shape_lemma. Qed.
 Print Assumptions first_letter_shape.
+
+(* ---- abbreviation, name lists, _find_closing_brace, width of a special character (every string) ---- *)
+
+(* bibtex_abbreviate: the word is its raw pieces joined by hyphens, every splitting hyphen at
+   (clamped) brace depth 0; each piece, stripped, contributes its first letter (first_letter_spec_all);
+   the non-empty letters are joined by the delimiter (default ".-") *)
+Theorem abbreviate_spec : forall w d out, bibtex_abbreviate w d = Ok out ->
+  exists raw letters,
+    ((w = [] /\ raw = []) \/
+     (w = join [c_hyphen] raw /\ raw <> [] /\ Forall (fun p => cdepth_from 0 p = 0) (removelast raw))) /\
+    Forall2 (fun p l => bibtex_first_letter (strip p) = Ok l) raw letters /\
+    out = join (match d with None => [46%N; c_hyphen] | Some d => d end)
+               (filter (fun l => negb (match l with [] => true | _ => false end)) letters).
+Proof. exact abbreviate_spec_lemma. Qed.
+Print Assumptions abbreviate_spec.
+
+(* split_name_list: the names are the stripped pieces of the string cut at " and " in any case,
+   and only at brace depth 0 *)
+Theorem split_name_list_spec : forall s names, split_name_list s = Ok names ->
+  exists raw, names = map strip raw /\
+    ((s = [] /\ raw = []) \/
+     exists pairs lastp,
+       raw = map fst pairs ++ [lastp] /\
+       s = flat_map (fun ps => fst ps ++ snd ps) pairs ++ lastp /\
+       Forall (fun p => cdepth_from 0 p = 0) (map fst pairs) /\
+       Forall (fun sep => exists b c d, sep = [c_space; b; c; d; c_space] /\
+                 to_lower b = 97%N /\ to_lower c = 110%N /\ to_lower d = 100%N) (map snd pairs)).
+Proof. exact split_name_list_spec_lemma. Qed.
+Print Assumptions split_name_list_spec.
+
+(* _find_closing_brace: the returned prefix is the SHORTEST prefix that closes the group opened
+   before the string (every proper prefix of it is still inside the group); if no prefix closes
+   it, the whole string *)
+Theorem find_closing_brace_spec : forall s u r, find_closing_brace s = (u, r) ->
+  s = u ++ r /\
+  ((depth_from 1 u = Some 0 /\
+    forall p x, u = p ++ x -> x <> [] -> exists k, depth_from 1 p = Some (S k)) \/
+   (u = s /\ r = [] /\ forall p x, s = p ++ x -> exists k, depth_from 1 p = Some (S k))).
+Proof. exact find_closing_brace_spec_lemma. Qed.
+Print Assumptions find_closing_brace_spec.
+
+(* a special character is measured as its two braces, plus the non-brace characters after the
+   backslash and the command letter, minus 1000 (any width table); with width_additive this
+   extends to every balanced text around it *)
+Theorem width_special : forall cw inner w, balanced inner ->
+  bibtex_width cw (c_lbrace :: c_bslash :: inner ++ [c_rbrace]) = Ok w ->
+  w = (cw c_lbrace
+       + (fold_left (fun a c => if is_brace c then a else a + cw c) (skipn 1 inner) 0 - 1000)
+       + cw c_rbrace)%Z.
+Proof. exact width_special_lemma. Qed.
+Print Assumptions width_special.
+
+(* ---- the BST builtins: each wrapper is the utils function on the popped operands ---- *)
+Theorem bst_wrappers :
+  (forall s start len, bst_substring s start len = Ok (bibtex_substring s start len)) /\
+  (forall s l, bst_text_prefix s l = bibtex_prefix s l) /\
+  (forall s, bst_text_length s = bibtex_len s) /\
+  (forall s, bst_purify s = bibtex_purify s) /\
+  (forall cw s, bst_width cw s = bibtex_width cw s) /\
+  (forall s, bst_num_names s = do l <- split_name_list s; Ok (length l)) /\
+  (forall s mode, bst_change_case s mode =
+     match mode with
+     | [] => PyErr E_BIBTEX (-1)
+     | c :: _ =>
+       if N.eqb (to_lower c) 108 then change_case s 0
+       else if N.eqb (to_lower c) 117 then change_case s 1
+       else if N.eqb (to_lower c) 116 then change_case s 2
+       else PyErr E_BIBTEX (-1)
+     end).
+Proof.
+  exact (conj bst_substring_spec (conj bst_text_prefix_spec (conj bst_text_length_spec (conj bst_purify_spec
+        (conj bst_width_spec (conj bst_num_names_spec bst_change_case_spec)))))).
+Qed.
+Print Assumptions bst_wrappers.
+
+(* ... and each is what C03's interpreter model executes for that builtin, operands in the code's
+   pop order (top of stack first): `s start len substring$`, `s n text.prefix$`, `s mode change.case$` *)
+Theorem bst_substring_step : forall fmt cw rec wh st len start s r, st_stack st = VInt len :: VInt start :: VStr s :: r ->
+  builtin_step fmt cw rec wh B_substring st = bind (bst_substring s start len) (fun v => Ok (set_stack st (VStr v :: r))).
+Proof. exact step_substring. Qed.
+Print Assumptions bst_substring_step.
+
+Theorem bst_text_prefix_step : forall fmt cw rec wh st n s r, st_stack st = VInt n :: VStr s :: r ->
+  builtin_step fmt cw rec wh B_text_prefix st = bind (bst_text_prefix s n) (fun v => Ok (set_stack st (VStr v :: r))).
+Proof. exact step_text_prefix. Qed.
+Print Assumptions bst_text_prefix_step.
+
+Theorem bst_text_length_step : forall fmt cw rec wh st s r, st_stack st = VStr s :: r ->
+  builtin_step fmt cw rec wh B_text_length st = bind (bst_text_length s) (fun n => Ok (set_stack st (VInt (Z.of_nat n) :: r))).
+Proof. exact step_text_length. Qed.
+Print Assumptions bst_text_length_step.
+
+Theorem bst_purify_step : forall fmt cw rec wh st s r, st_stack st = VStr s :: r ->
+  builtin_step fmt cw rec wh B_purify st = bind (bst_purify s) (fun v => Ok (set_stack st (VStr v :: r))).
+Proof. exact step_purify. Qed.
+Print Assumptions bst_purify_step.
+
+Theorem bst_width_step : forall fmt cw rec wh st s r, st_stack st = VStr s :: r ->
+  builtin_step fmt cw rec wh B_width st = bind (bst_width cw s) (fun w => Ok (set_stack st (VInt w :: r))).
+Proof. exact step_width. Qed.
+Print Assumptions bst_width_step.
+
+Theorem bst_num_names_step : forall fmt cw rec wh st s r, st_stack st = VStr s :: r ->
+  builtin_step fmt cw rec wh B_num_names st = bind (bst_num_names s) (fun n => Ok (set_stack st (VInt (Z.of_nat n) :: r))).
+Proof. exact step_num_names. Qed.
+Print Assumptions bst_num_names_step.
+
+Theorem bst_change_case_step : forall fmt cw rec wh st c m s r, st_stack st = VStr (c :: m) :: VStr s :: r ->
+  builtin_step fmt cw rec wh B_change_case st = bind (bst_change_case s (c :: m)) (fun v => Ok (set_stack st (VStr v :: r))).
+Proof. exact step_change_case. Qed.
+Print Assumptions bst_change_case_step.
 
 (* ---- non-vacuity ---- *)
 Example scan_example :
@@ -372,3 +502,9 @@ Example fixed_findings_example :
   split_tex_string_gen sep_space (s2l "{a{b}c d") false true = Ok [s2l "{a{b}c d"] /\
   split_tex_string_gen sep_hyphen (s2l "{{-") false false = Ok [s2l "{{-"].
 Proof. vm_compute. auto. Qed.
+Example round3_example :
+  bibtex_abbreviate (s2l "Jean-{Pierre-Paul}--{\'E}mile") None = Ok (s2l "J.-P.-{\'E}") /\
+  split_name_list (s2l "A {and} B AND {C and D} and E") = Ok [s2l "A {and} B"; s2l "{C and D}"; s2l "E"] /\
+  find_closing_brace (s2l "a{b}c}d") = (s2l "a{b}c}", s2l "d") /\ find_closing_brace (s2l "a{b}c") = (s2l "a{b}c", []) /\
+  bst_change_case (s2l "Ab") (s2l "Upper") = Ok (s2l "AB") /\ bst_change_case (s2l "Ab") (s2l "x") = PyErr E_BIBTEX (-1).
+Proof. vm_compute. auto 8. Qed.
